@@ -234,8 +234,8 @@ type runLog struct {
 	sameStreak                             int  // consecutive Func calls at one and the same location
 	lastX                                  []float64
 	statusFired                            bool
-	minF                                   float64 // least non-NaN value returned by Func (+Inf if none)
-	f0                                     float64 // f(x0) computed by the harness
+	minF                                   float64  // least non-NaN value returned by Func (+Inf if none)
+	f0                                     float64  // f(x0) computed by the harness
 	trace                                  []string // every callback, in order (only if runCfg.trace)
 }
 
@@ -662,7 +662,9 @@ func (c *runCfg) check(r *runResult) (class, msg string) {
 	} else {
 		p := lg.pts[xkey(res.X)]
 		claimed := res.F < math.Inf(1) // a value below +Inf must be backed by an evaluation
-		if !claimed && lg.minF < math.Inf(1) {
+		if !claimed && lg.minF < math.Inf(1) && c.o.kind != "gradnan" && c.o.kind != "nan" {
+			// (objectives that return NaN are excluded: e.g. NelderMead adopts a NaN vertex as
+			// its best point for ever - comparisons with NaN, don't-care zone in NOTES.md)
 			return "location", fmt.Sprintf("result F=%v although values below +Inf were returned by Func (least %v)", res.F, lg.minF)
 		}
 		if claimed || p != nil {
